@@ -1,8 +1,144 @@
-//! C01 — generator and driver of the real API.
+//! C01 — pairwise::Aligner::{custom,global,semiglobal,local}: one line = one history of calls on ONE aligner.
+//!
+//! `const => min:<MIN_SCORE>`
+//! `cap:<m>:<n>|cap:new sc:<go>:<ge>:<xp>:<xs>:<yp>:<ys> w:<alphabet hex>:<table> <mode>,<x>,<y>;… =>
+//!      s:<score>,x:<xs>:<xe>:<xlen>,y:<ys>:<ye>:<ylen>,o:<ops>,h:same|differs;…`
+//! `h:` compares the whole `Alignment` value with the one a fresh aligner returns for the same call.
 use crate::util::*;
+use bio::alignment::pairwise::{Aligner, MIN_SCORE};
+use bio::alignment::Alignment;
 
-pub fn gen(_tier: &str, _rng: &mut Rng, _out: &mut Vec<String>) {}
+#[path = "align_util.rs"]
+pub mod align_util;
+use align_util::*;
 
-pub fn exec(_toks: &[&str]) -> Result<String, String> {
-    Err("unimplemented".into())
+const MODES: [&str; 4] = ["custom", "global", "semiglobal", "local"];
+
+fn call(al: &mut Aligner<TabFn>, mode: &str, x: &[u8], y: &[u8]) -> Result<Alignment, String> {
+    Ok(match mode {
+        "custom" => al.custom(x, y),
+        "global" => al.global(x, y),
+        "semiglobal" => al.semiglobal(x, y),
+        "local" => al.local(x, y),
+        _ => return Err("mode".into()),
+    })
+}
+
+fn gen_cap(rng: &mut Rng, maxlen: usize) -> String {
+    match rng.below(6) {
+        0 => "cap:0:0".into(),
+        1 => "cap:new".into(),
+        2 => format!("cap:{}:{}", maxlen * 4, maxlen * 4),
+        3 => format!("cap:{}:0", rng.below(maxlen + 1)),
+        _ => format!("cap:{}:{}", rng.below(maxlen + 1), rng.below(maxlen + 1)),
+    }
+}
+
+fn gen_history(rng: &mut Rng, maxlen: usize, ncalls: usize, out: &mut Vec<String>) {
+    let sc = gen_scspec(rng);
+    let mut calls = vec![];
+    for _ in 0..ncalls {
+        let mode = if rng.chance(1, 2) { "custom" } else { MODES[rng.below(4)] };
+        let (x, y) = gen_pair(rng, &sc.f.alpha, maxlen);
+        calls.push(format!("{},{},{}", mode, hex(&x), hex(&y)));
+    }
+    out.push(format!("{} {} {}", gen_cap(rng, maxlen), sc.tokens(), calls.join(";")));
+}
+
+pub fn gen(tier: &str, rng: &mut Rng, out: &mut Vec<String>) {
+    let thorough = tier == "thorough";
+    let nhist = if thorough { 40000 } else { 2500 };
+    for i in 0..nhist {
+        let maxlen = if thorough { [6, 8, 10, 12][i % 4] } else { [5, 7, 9, 10][i % 4] };
+        let ncalls = 1 + rng.below(9);
+        gen_history(rng, maxlen, ncalls, out);
+    }
+    if thorough {
+        // exhaustive small scope: all x, y over {A,C} with |x|,|y| <= 4, 24 scoring schemes, the four modes
+        // in rotation; 31 calls (one x against every y) per history
+        let seqs = enum_seqs(b"AC", 4);
+        let mut schemes = vec![];
+        for &(go, ge) in &[(-2, -1), (0, -1), (-3, 0)] {
+            for &clips in &[
+                [MIN_SCORE; 4],
+                [0, 0, 0, 0],
+                [-1, MIN_SCORE, 0, -2],
+                [MIN_SCORE, -1, -2, 0],
+            ] {
+                for &tab in &[[1, -1, -1, 1], [2, 1, -3, 0]] {
+                    schemes.push((go, ge, clips, tab));
+                }
+            }
+        }
+        let mut rot = 0usize;
+        for (go, ge, clips, tab) in schemes {
+            for x in &seqs {
+                let calls: Vec<String> = seqs
+                    .iter()
+                    .map(|y| {
+                        rot += 1;
+                        let mode = if rot % 2 == 0 { "custom" } else { MODES[(rot / 2) % 4] };
+                        format!("{},{},{}", mode, hex(x), hex(y))
+                    })
+                    .collect();
+                out.push(format!(
+                    "cap:{}:{} sc:{}:{}:{}:{}:{}:{} w:4143:{} {}",
+                    rot % 5,
+                    rot % 3,
+                    go,
+                    ge,
+                    clips[0],
+                    clips[1],
+                    clips[2],
+                    clips[3],
+                    join(&tab, ","),
+                    calls.join(";")
+                ));
+            }
+        }
+    }
+}
+
+pub fn exec(toks: &[&str]) -> Result<String, String> {
+    if toks == ["const"] {
+        return Ok(format!("min:{}", MIN_SCORE));
+    }
+    if toks.len() != 4 {
+        return Err("arity".into());
+    }
+    let sc = parse_sc(toks[1], toks[2])?;
+    let mut calls: Vec<(&str, Vec<u8>, Vec<u8>)> = vec![];
+    for c in split_ne(toks[3], ';') {
+        let p: Vec<&str> = c.split(',').collect();
+        if p.len() != 3 || !MODES.contains(&p[0]) {
+            return Err("call".into());
+        }
+        let (x, y) = (unhex(p[1])?, unhex(p[2])?);
+        if x.len() > 64 || y.len() > 64 || !sc.in_alphabet(&x) || !sc.in_alphabet(&y) {
+            return Err("sequence outside the envelope".into());
+        }
+        calls.push((p[0], x, y));
+    }
+    let mut al = match toks[0] {
+        "cap:new" => Aligner::with_scoring(sc.scoring()),
+        t => {
+            let p: Vec<&str> = t.split(':').collect();
+            if p.len() != 3 || p[0] != "cap" {
+                return Err("cap".into());
+            }
+            let (m, n): (usize, usize) = (parse(p[1])?, parse(p[2])?);
+            if m > 4096 || n > 4096 {
+                return Err("cap too large".into());
+            }
+            Aligner::with_capacity_and_scoring(m, n, sc.scoring())
+        }
+    };
+    let mut outs = vec![];
+    for (mode, x, y) in &calls {
+        let a = call(&mut al, mode, x, y)?;
+        let mut fresh = Aligner::with_capacity_and_scoring(x.len(), y.len(), sc.scoring());
+        let b = call(&mut fresh, mode, x, y)?;
+        outs.push(format!("{},h:{}", aln_string(&a), if a == b { "same" } else { "differs" }));
+    }
+    Ok(outs.join(";"))
 }
